@@ -929,6 +929,343 @@ fn g_adaptive(ctx: &mut Ctx) {
         c.ev(9); Ok(()) });
 }
 
+
+// ================================================================================================
+// LARGE-INPUT FAMILIES (`huge_*`): >= 64 KiB .. several MiB. Directed, exactly known expectations (no super-linear oracle).
+//   huge_align : 2 MiB + k and 3 MiB operands for EVERY destination/source (or haystack) alignment 0..63, canaries around the destination
+//   huge_size  : sizes just around 2^16 / 2^17 (65535..65537, 131071..131074) through the ordinary full checks
+//   huge_shape : X c X d with |X| >= 64 KiB, one dominant symbol, all-equal, short periods
+//   huge_mib   : multi-MiB CRC32C / Base64 / hex / UTF-8 / histogram / hashes / word arrays, boundaries 2^16, 2^20 (+-1)
+//   huge_guard : 2 MiB + k operands ending exactly at a PROT_NONE page (forked child)
+// Not generated under Miri.
+// ================================================================================================
+const MIB: usize = 1 << 20;
+const HK: &[usize] = &[0, 1, 15, 16, 17, 31, 32, 33, 63, 64, 65, 127, 129, 4095, 4097];
+const HSIZES: &[usize] = &[65535, 65536, 65537, 131071, 131072, 131073, 131074];
+fn fast_bytes(r: &mut Rng, n: usize) -> Vec<u8> { let mut v = Vec::with_capacity(n + 8); while v.len() < n { v.extend_from_slice(&r.next().to_le_bytes()); } v.truncate(n); v }
+/// shapes at large sizes: 0 random, 1 all-equal, 2 one dominant symbol (60-99%), 3 short period, 4 long runs, 5 high bytes
+fn huge_shape_bytes(r: &mut Rng, kind: u64, n: usize) -> Vec<u8> {
+    match kind % 6 {
+        0 => fast_bytes(r, n), 1 => vec![r.next() as u8; n],
+        2 => { let dom = r.next() as u8; let pct = 60 + r.below(40); let mut v = fast_bytes(r, n); let mut x = r.next() | 1; for b in v.iter_mut() { x ^= x << 13; x ^= x >> 7; x ^= x << 17; if x % 100 < pct { *b = dom; } } v }
+        3 => { let p = 1 + r.usize_below(7); let pat = r.bytes(p); (0..n).map(|i| pat[i % p]).collect() }
+        4 => { let mut v = Vec::with_capacity(n); while v.len() < n { let b = r.next() as u8; let k = (1 + r.usize_below(200_000)).min(n - v.len()); v.resize(v.len() + k, b); } v }
+        _ => { let mut v = fast_bytes(r, n); for b in v.iter_mut() { *b |= 0x80; } v }
+    }
+}
+/// over-allocated buffer whose index `base` is 64-byte aligned; windows `w(a, len)` start at alignment `a`
+struct Arena { v: Vec<u8>, base: usize }
+impl Arena {
+    fn new(cap: usize, fill: u8) -> Arena { let v = vec![fill; cap + 512]; let p = v.as_ptr() as usize; let mut base = 128; while (p + base) % 64 != 0 { base += 1; } Arena { v, base } }
+    fn from(data: &[u8]) -> Arena { let mut a = Arena::new(data.len() + 64, 0); let b = a.base; a.v[b..b + data.len()].copy_from_slice(data); a }
+    fn w(&self, a: usize, len: usize) -> &[u8] { &self.v[self.base + a..self.base + a + len] }
+    fn wm(&mut self, a: usize, len: usize) -> &mut [u8] { let b = self.base + a; &mut self.v[b..b + len] }
+    fn stamp(&mut self, a: usize, len: usize) { let s = self.base + a; for x in &mut self.v[s - 64..s] { *x = CANARY; } for x in &mut self.v[s + len..s + len + 64] { *x = CANARY; } }
+    fn intact(&self, a: usize, len: usize) -> bool { let s = self.base + a; self.v[s - 64..s].iter().all(|&b| b == CANARY) && self.v[s + len..s + len + 64].iter().all(|&b| b == CANARY) }
+}
+fn huge_len(i: usize, j: usize) -> usize { if i % 16 == 7 { 3 * MIB } else { 2 * MIB + HK[(i + j) % HK.len()] } }
+/// copy of 2 MiB + k / 3 MiB for destination alignment `a_dst` x every source alignment
+fn huge_copy_sweep(c: &mut Case, name: &str, f: &dyn Fn(&[u8], &mut [u8]) -> ZR<()>, a_dst: usize) -> Res {
+    let src = Arena::from(&fast_bytes(&mut c.rng, 3 * MIB + 128)); let mut dst = Arena::new(3 * MIB + 128, 0);
+    for a_src in 0..64 {
+        let len = huge_len(a_src, a_dst);
+        dst.stamp(a_dst, len);
+        let r = np(name, || f(src.w(a_src, len), dst.wm(a_dst, len)))?;
+        if let Err(e) = r { return Err(bad("copy_err", format!("{name}: len={len} src align {a_src} -> dst align {a_dst}: Err({e})"))); }
+        if dst.w(a_dst, len) != src.w(a_src, len) { let i = first_diff(dst.w(a_dst, len), src.w(a_src, len)); return Err(bad("copy_mismatch", format!("{name}: len={len} src align {a_src} -> dst align {a_dst}: first wrong byte at {i}"))); }
+        ensure!(dst.intact(a_dst, len), "copy_oob_write", "{name}: len={len} src align {a_src} -> dst align {a_dst}: wrote outside the destination slice");
+        c.ev(1);
+    }
+    Ok(())
+}
+fn huge_fill_sweep(c: &mut Case, name: &str, f: &dyn Fn(&mut [u8], u8), a: usize) -> Res {
+    let mut dst = Arena::new(3 * MIB + 128, 0x33); let mut val = c.rng.next() as u8;
+    for (i, &k) in HK.iter().enumerate().chain(std::iter::once((99, &MIB))) {
+        let len = 2 * MIB + k; val = val.wrapping_add(1 + (i as u8 % 7)); if i % 5 == 0 { val = [0u8, 0xFF, 0x80, 0x7F][i / 5 % 4]; } if dst.w(a, 1)[0] == val { val ^= 0x55; }
+        for x in dst.wm(a, len).iter_mut().step_by(4093) { *x = !val; }
+        dst.stamp(a, len);
+        np(name, || f(dst.wm(a, len), val))?;
+        if let Some(p) = dst.w(a, len).iter().position(|&b| b != val) { return Err(bad("fill_mismatch", format!("{name}: len={len} align {a} value={val:#04x}: byte {p} = {:#04x}", dst.w(a, len)[p]))); }
+        ensure!(dst.intact(a, len), "fill_oob_write", "{name}: len={len} align {a} wrote outside the slice");
+        c.ev(1);
+    }
+    Ok(())
+}
+/// sign of compare on equal 2 MiB + k operands and with a single difference far from the start, alignment `a_al` x `b_als`
+fn huge_cmp_sweep(c: &mut Case, name: &str, f: &dyn Fn(&[u8], &[u8]) -> i32, a_al: usize, b_als: &[usize]) -> Res {
+    let a = Arena::from(&fast_bytes(&mut c.rng, 3 * MIB + 128)); let mut b = Arena::new(3 * MIB + 128, 0);
+    for &b_al in b_als {
+        let len = huge_len(b_al, a_al);
+        b.wm(b_al, len).copy_from_slice(a.w(a_al, len));
+        // equal operands on a quarter of the pairs (the late difference below already scans the full length on every pair)
+        if (a_al + b_al) % 4 == 0 || b_als.len() < 64 { let g = np(name, || f(a.w(a_al, len), b.w(b_al, len)))?; ensure!(g == 0, "compare_sign", "{name}: equal operands len={len} aligns {a_al}/{b_al}: got {g}"); c.ev(1); }
+        // one late difference per operand pair (full-length scan), two early ones (cheap)
+        for p in [if (a_al + b_al) % 2 == 0 { len - 1 } else { len - 1 - (b_al % 70) }, 65536 + b_al, MIB + 1 + a_al] {
+            let old = b.w(b_al, len)[p]; let (nw, want) = match (p + b_al) % 4 { 0 => (old ^ 0x80, if old & 0x80 != 0 { 1 } else { -1 }), 1 => (old.wrapping_add(1), if old == 0xFF { 1 } else { -1 }), 2 => (old.wrapping_sub(1), if old == 0 { -1 } else { 1 }), _ => (!old, if old > !old { 1 } else { -1 }) };
+            b.wm(b_al, len)[p] = nw;
+            // bytes after the first difference disagree the other way round
+            let q = p + 1; let oldq = if q < len { let o = b.w(b_al, len)[q]; b.wm(b_al, len)[q] = if want > 0 { 0xFF } else { 0 }; Some(o) } else { None };
+            let g = np(name, || f(a.w(a_al, len), b.w(b_al, len)))?; let g2 = if p < 2 * MIB { f(b.w(b_al, len), a.w(a_al, len)) } else { -g };
+            if let Some(o) = oldq { b.wm(b_al, len)[q] = o; } b.wm(b_al, len)[p] = old;
+            if sgn(g) != want || sgn(g2) != -want { return Err(bad("compare_sign", format!("{name}: len={len} aligns {a_al}/{b_al} first difference at {p} ({old:#04x} vs {nw:#04x}): got {g} / swapped {g2}, want sign {want}"))); }
+            c.ev(2);
+        }
+    }
+    Ok(())
+}
+/// haystack of random bytes that never contains `R`; returns (arena, reserved byte)
+fn huge_hay(c: &mut Case, n: usize) -> (Arena, u8) { let r = c.rng.next() as u8; let mut d = fast_bytes(&mut c.rng, n); for x in d.iter_mut() { if *x == r { *x = r ^ 1; } } (Arena::from(&d), r) }
+fn huge_find_sweep(c: &mut Case, name: &str, f: &dyn Fn(&[u8], u8) -> Option<usize>, al: usize) -> Res {
+    let (mut h, r) = huge_hay(c, 3 * MIB + 128);
+    for j in 0..3 {
+        let len = if j == 2 && al % 8 == 3 { 3 * MIB } else { 2 * MIB + HK[(al + j * 5) % HK.len()] };
+        let g = np(name, || f(h.w(al, len), r))?; ensure!(g.is_none(), "find_byte", "{name}: len={len} align {al}: absent needle {r:#04x} found at {g:?}"); c.ev(1);
+        for ps in [vec![len - 1], vec![len - 1 - (al % 40), len - 1], vec![65536 + al, MIB + 1, len - 1], vec![MIB + 1 + al]] {
+            for &p in &ps { h.wm(al, len)[p] = r; }
+            let g = np(name, || f(h.w(al, len), r))?;
+            for &p in &ps { h.wm(al, len)[p] = r ^ 1; }
+            ensure!(g == Some(ps[0]), "find_byte", "{name}: len={len} align {al} needle {r:#04x} planted at {ps:?}: got {g:?}"); c.ev(1);
+        }
+    }
+    Ok(())
+}
+fn huge_strstr_sweep(c: &mut Case, name: &str, f: &dyn Fn(&[u8], &[u8]) -> Option<usize>, al: usize, short_needles: bool) -> Res {
+    let (mut h, r) = huge_hay(c, 2 * MIB + 4200);
+    let len = 2 * MIB + HK[al % HK.len()];
+    let mut needles: Vec<Vec<u8>> = vec![];
+    if short_needles { let nl = [2usize, 5, 15, 16][al % 4]; let mut nd = c.rng.bytes(nl); for x in nd.iter_mut() { if *x == r { *x = r ^ 1; } } nd[nl / 2] = r; needles.push(nd); }
+    for nl in [17usize, 40, 65537] { let mut nd = fast_bytes(&mut c.rng, nl); for x in nd.iter_mut() { if *x == r { *x = r ^ 1; } } nd[nl - 1] = r; nd[0] = h.w(al, len)[7]; needles.push(nd); }
+    for (i, nd) in needles.iter().enumerate() {
+        let nl = nd.len(); let na = ABuf::new(nd, (al * 7 + i) % 64);
+        if i == 0 { let g = np(name, || f(h.w(al, len), na.s()))?; ensure!(g.is_none(), "substring_search", "{name}: hay len={len} align {al}: absent needle (len {nl}) found at {g:?}"); c.ev(1); }
+        let pos = match i % 3 { 0 => len - nl, 1 => MIB + 3 + al, _ => (65536 + al).min(len - nl) };
+        let saved = h.w(al, len)[pos..pos + nl].to_vec(); h.wm(al, len)[pos..pos + nl].copy_from_slice(nd);
+        let g = np(name, || f(h.w(al, len), na.s()))?;
+        h.wm(al, len)[pos..pos + nl].copy_from_slice(&saved);
+        ensure!(g == Some(pos), "substring_search", "{name}: hay len={len} align {al} needle len {nl} planted at {pos}: got {g:?}"); c.ev(1);
+    }
+    Ok(())
+}
+fn huge_anyof_sweep(c: &mut Case, name: &str, f: &dyn Fn(&[u8], &[u8]) -> Option<usize>, al: usize, wide: bool) -> Res {
+    // haystack over the low half of the byte range, set members from the high half
+    let mut d = fast_bytes(&mut c.rng, 2 * MIB + 4200); for x in d.iter_mut() { *x &= 0x7F; } let mut h = Arena::from(&d);
+    let len = 2 * MIB + HK[(al * 3) % HK.len()]; let sz = if wide { 17 + al % 20 } else { 1 + al % 16 }; let set: Vec<u8> = (0..sz).map(|i| 0x80 + ((i * 5 + al) % 128) as u8).collect();
+    let mut set = set; set.sort(); set.dedup(); let sa = ABuf::new(&set, (al * 11) % 64);
+    let g = np(name, || f(h.w(al, len), sa.s()))?; ensure!(g.is_none(), "charset_search", "{name}: len={len} align {al}: no member present but got {g:?}"); c.ev(1);
+    for ps in [vec![len - 1], vec![MIB + 1 + al, len - 1], vec![65535 + al]] {
+        for (k, &p) in ps.iter().enumerate() { h.wm(al, len)[p] = set[(set.len() - 1 + k) % set.len()]; }
+        let g = np(name, || f(h.w(al, len), sa.s()))?;
+        for &p in &ps { h.wm(al, len)[p] = 0x11; }
+        ensure!(g == Some(ps[0]), "charset_search", "{name}: len={len} align {al} set len {} member planted at {ps:?}: got {g:?}", set.len()); c.ev(1);
+    }
+    Ok(())
+}
+fn huge_tag(c: &mut Case, what: &str, idx: u64) { c.input_str("huge", &format!("{what} idx={idx}")); c.hash_more(&idx.to_le_bytes()); c.nontrivial(); }
+
+fn g_huge_bytes(ctx: &mut Ctx) {
+    use zipora::memory::simd_ops::*;
+    use zipora::io::simd_memory::copy::*;
+    use zipora::io::simd_memory::search as S;
+    use zipora::string::simd as T;
+    let off = || S::SimdStringSearch::with_config(S::SearchConfig { enable_sse42: false, enable_avx2: false, enable_avx512: false, enable_neon: false });
+    // ---- every alignment 0..63
+    for idx in 0..ctx.n(64, 256) as u64 { let al = (idx % 64) as usize;
+        ctx.case("memops/copy", "huge_align", idx, |c| { huge_tag(c, "copy 2MiB+k/3MiB, dst align = idx, all src aligns", idx); let ops = SimdMemOps::new();
+            if idx % 2 == 0 { huge_copy_sweep(c, "SimdMemOps::copy_nonoverlapping", &|s, d| ops.copy_nonoverlapping(s, d), al) } else { huge_copy_sweep(c, "fast_copy", &|s, d| fast_copy(s, d), al) } });
+        ctx.case("memops/copy_cacheopt", "huge_align", idx, |c| { huge_tag(c, "copy_cache_optimized 2MiB+k/3MiB", idx); let ops = SimdMemOps::new();
+            if idx % 2 == 0 { huge_copy_sweep(c, "SimdMemOps::copy_cache_optimized", &|s, d| ops.copy_cache_optimized(s, d), al) } else { huge_copy_sweep(c, "fast_copy_cache_optimized", &|s, d| fast_copy_cache_optimized(s, d), al) } });
+        ctx.case("iocopy/large", "huge_align", idx, |c| { huge_tag(c, "copy_large_simd 2MiB+k/3MiB", idx); huge_copy_sweep(c, "copy_large_simd", &|s, d| copy_large_simd(d, s), al) });
+        ctx.case("memops/fill", "huge_align", idx, |c| { huge_tag(c, "fill 2MiB+k/3MiB", idx); let ops = SimdMemOps::new();
+            if idx % 2 == 0 { huge_fill_sweep(c, "SimdMemOps::fill", &|s, v| ops.fill(s, v), al) } else { huge_fill_sweep(c, "fast_fill", &|s, v| fast_fill(s, v), al) } });
+        ctx.case("memops/compare", "huge_align", idx, |c| { huge_tag(c, "compare 2MiB+k/3MiB, all operand aligns", idx); let ops = SimdMemOps::new(); let all: Vec<usize> = (0..64).collect();
+            match idx % 3 { 0 => huge_cmp_sweep(c, "SimdMemOps::compare", &|a, b| ops.compare(a, b), al, &all), 1 => huge_cmp_sweep(c, "fast_compare", &|a, b| fast_compare(a, b), al, &all), _ => huge_cmp_sweep(c, "fast_compare_cache_optimized", &|a, b| fast_compare_cache_optimized(a, b), al, &all) } });
+        let few = [al, (al * 37 + 11) % 64, 0, 63];
+        ctx.case("iosearch/strcmp.auto", "huge_align", idx, |c| { huge_tag(c, "compare_strings 2MiB+k", idx); let s = S::SimdStringSearch::new(); huge_cmp_sweep(c, "SimdStringSearch::compare_strings", &|a, b| sgn_ord(s.compare_strings(a, b)), al, &few) });
+        ctx.case("iosearch/strcmp.sse42", "huge_align", idx, |c| { huge_tag(c, "sse42_strcmp 2MiB+k", idx); huge_cmp_sweep(c, "sse42_strcmp", &|a, b| sgn_ord(S::sse42_strcmp(a, b)), al, &few) });
+        ctx.case("iosearch/strcmp.scalar", "huge_align", idx, |c| { huge_tag(c, "scalar_strcmp 2MiB+k", idx); huge_cmp_sweep(c, "scalar_strcmp", &|a, b| sgn_ord(S::scalar_strcmp(a, b)), al, &few) });
+        ctx.case("strsearch/strcmp", "huge_align", idx, |c| { huge_tag(c, "string sse42_strcmp 2MiB+k (equal lengths)", idx); let s = T::SimdStringSearch::new(); huge_cmp_sweep(c, "string::SimdStringSearch::sse42_strcmp", &|a, b| sgn_ord(s.sse42_strcmp(a, b)), al, &few) });
+        ctx.case("memops/find_byte", "huge_align", idx, |c| { huge_tag(c, "find_byte 2MiB+k", idx); let ops = SimdMemOps::new();
+            if idx % 2 == 0 { huge_find_sweep(c, "SimdMemOps::find_byte", &|h, n| ops.find_byte(h, n), al) } else { huge_find_sweep(c, "fast_find_byte", &|h, n| fast_find_byte(h, n), al) } });
+        ctx.case("iosearch/strchr.auto", "huge_align", idx, |c| { huge_tag(c, "find_char 2MiB+k", idx); let s = S::SimdStringSearch::new(); huge_find_sweep(c, "SimdStringSearch::find_char", &|h, n| s.find_char(h, n), al) });
+        ctx.case("iosearch/strchr.sse42", "huge_align", idx, |c| { huge_tag(c, "sse42_strchr 2MiB+k", idx); huge_find_sweep(c, "sse42_strchr", &|h, n| S::sse42_strchr(h, n), al) });
+        ctx.case("iosearch/strchr.scalar", "huge_align", idx, |c| { huge_tag(c, "scalar_strchr 2MiB+k", idx); let s = off(); if idx % 2 == 0 { huge_find_sweep(c, "scalar_strchr", &|h, n| S::scalar_strchr(h, n), al) } else { huge_find_sweep(c, "SimdStringSearch(all off)::find_char", &|h, n| s.find_char(h, n), al) } });
+        ctx.case("strsearch/strchr", "huge_align", idx, |c| { huge_tag(c, "string sse42_strchr 2MiB+k", idx); let s = T::SimdStringSearch::new(); huge_find_sweep(c, "string::SimdStringSearch::sse42_strchr", &|h, n| s.sse42_strchr(h, n), al) });
+        ctx.case("iosearch/strstr.auto", "huge_align", idx, |c| { huge_tag(c, "find_pattern 2MiB+k", idx); let s = S::SimdStringSearch::new(); huge_strstr_sweep(c, "SimdStringSearch::find_pattern", &|h, n| s.find_pattern(h, n), al, true) });
+        ctx.case("iosearch/strstr.sse42", "huge_align", idx, |c| { huge_tag(c, "sse42_strstr 2MiB+k", idx); huge_strstr_sweep(c, "sse42_strstr", &|h, n| S::sse42_strstr(h, n), al, true) });
+        ctx.case("iosearch/strstr.scalar", "huge_align", idx, |c| { huge_tag(c, "scalar_strstr 2MiB+k", idx); huge_strstr_sweep(c, "scalar_strstr", &|h, n| S::scalar_strstr(h, n), al, true) });
+        ctx.case("strsearch/strstr", "huge_align", idx, |c| { huge_tag(c, "string sse42_strstr 2MiB+k", idx); let s = T::SimdStringSearch::new(); huge_strstr_sweep(c, "string::SimdStringSearch::sse42_strstr", &|h, n| s.sse42_strstr(h, n), al, true) });
+        ctx.case("iosearch/anyof.auto", "huge_align", idx, |c| { huge_tag(c, "find_any_of 2MiB+k", idx); if idx % 3 == 2 { c.tag("charset_gt16"); } let s = S::SimdStringSearch::new(); huge_anyof_sweep(c, "SimdStringSearch::find_any_of", &|h, n| s.find_any_of(h, n), al, idx % 3 == 2) });
+        ctx.case("iosearch/anyof.sse42", "huge_align", idx, |c| { huge_tag(c, "sse42_multi_search 2MiB+k", idx); if idx % 3 == 2 { c.tag("charset_gt16"); } huge_anyof_sweep(c, "sse42_multi_search", &|h, n| S::sse42_multi_search(h, n), al, idx % 3 == 2) });
+        ctx.case("iosearch/anyof.scalar", "huge_align", idx, |c| { huge_tag(c, "scalar_multi_search 2MiB+k", idx); if idx % 3 == 2 { c.tag("charset_gt16"); } huge_anyof_sweep(c, "scalar_multi_search", &|h, n| S::scalar_multi_search(h, n), al, idx % 3 == 2) });
+    }
+}
+
+
+/// sizes around 2^16 / 2^17 through the ordinary (full) checks, random alignments, large-scale data shapes
+fn g_huge_sizes(ctx: &mut Ctx) {
+    use zipora::memory::simd_ops::*;
+    use zipora::io::simd_memory::copy::*;
+    use zipora::io::simd_memory::search as S;
+    use zipora::string::simd as T;
+    let n = ctx.n(HSIZES.len(), HSIZES.len() * 6) as u64;
+    let mk = |c: &mut Case, idx: u64| -> (Vec<u8>, Place, Place) { let len = HSIZES[(idx as usize) % HSIZES.len()]; let kind = idx / HSIZES.len() as u64 + c.rng.below(6); let d = huge_shape_bytes(&mut c.rng, kind, len);
+        let (p1, p2) = (Place::Align(c.rng.usize_below(64)), Place::Align(c.rng.usize_below(64))); c.input_str("huge", &format!("len={len} shape={} {p1:?} {p2:?}", kind % 6)); c.input("data", &d); c.nontrivial(); (d, p1, p2) };
+    for idx in 0..n {
+        ctx.case("memops/copy", "huge_size", idx, |c| { let (d, p1, p2) = mk(c, idx); let ops = SimdMemOps::new(); chk_copy(c, "SimdMemOps::copy_nonoverlapping", &|s, d| ops.copy_nonoverlapping(s, d), &d, p1, p2, true)?; chk_copy(c, "fast_copy", &|s, d| fast_copy(s, d), &d, p1, p2, true) });
+        ctx.case("memops/copy_cacheopt", "huge_size", idx, |c| { let (d, p1, p2) = mk(c, idx); let ops = SimdMemOps::new(); chk_copy(c, "SimdMemOps::copy_cache_optimized", &|s, d| ops.copy_cache_optimized(s, d), &d, p1, p2, true)?;
+            chk_copy(c, "SimdMemOps::copy_cache_optimized(aligned)", &|s, d| ops.copy_cache_optimized(s, d), &d, Place::Align(0), Place::Align(0), true)?; chk_copy(c, "SimdMemOps::copy_aligned", &|s, d| ops.copy_aligned(s, d), &d, Place::Align(0), Place::Align(0), true) });
+        ctx.case("iocopy/large", "huge_size", idx, |c| { let (d, p1, p2) = mk(c, idx); chk_copy(c, "copy_large_simd", &|s, d| copy_large_simd(d, s), &d, p1, p2, true) });
+        ctx.case("iocopy/aligned", "huge_size", idx, |c| { let (d, _, _) = mk(c, idx); chk_copy(c, "copy_aligned_simd", &|s, d| copy_aligned_simd(d, s), &d, Place::Align(0), Place::Align(0), true) });
+        ctx.case("memops/compare", "huge_size", idx, |c| { let (d, p1, p2) = mk(c, idx); let ops = SimdMemOps::new(); chk_cmp_sign(c, "SimdMemOps::compare", &|a, b| ops.compare(a, b), &d, p1, p2, false) });
+        ctx.case("memops/find_byte", "huge_size", idx, |c| { let (d, p1, _) = mk(c, idx); let ops = SimdMemOps::new(); chk_find_byte(c, "SimdMemOps::find_byte", &|h, n| ops.find_byte(h, n), &d, p1) });
+        ctx.case("memops/fill", "huge_size", idx, |c| { let (d, p1, _) = mk(c, idx); let ops = SimdMemOps::new(); chk_fill(c, "SimdMemOps::fill", &|s, x| ops.fill(s, x), d.len(), p1, d[0]) });
+        ctx.case("iosearch/strchr.auto", "huge_size", idx, |c| { let (d, p1, _) = mk(c, idx); let s = S::SimdStringSearch::new(); chk_find_byte(c, "SimdStringSearch::find_char", &|h, n| s.find_char(h, n), &d, p1) });
+        ctx.case("iosearch/strchr.sse42", "huge_size", idx, |c| { let (d, p1, _) = mk(c, idx); chk_find_byte(c, "sse42_strchr", &|h, n| S::sse42_strchr(h, n), &d, p1) });
+        ctx.case("strsearch/strchr", "huge_size", idx, |c| { let (d, p1, _) = mk(c, idx); let s = T::SimdStringSearch::new(); chk_find_byte(c, "string::SimdStringSearch::sse42_strchr", &|h, n| s.sse42_strchr(h, n), &d, p1) });
+        ctx.case("iosearch/strcmp.auto", "huge_size", idx, |c| { let (d, p1, p2) = mk(c, idx); let s = S::SimdStringSearch::new(); chk_ord(c, "SimdStringSearch::compare_strings", &|a, b| s.compare_strings(a, b), &d, p1, p2) });
+        ctx.case("iosearch/strcmp.sse42", "huge_size", idx, |c| { let (d, p1, p2) = mk(c, idx); chk_ord(c, "sse42_strcmp", &|a, b| S::sse42_strcmp(a, b), &d, p1, p2) });
+        ctx.case("strsearch/strcmp", "huge_size", idx, |c| { let (d, p1, p2) = mk(c, idx); let s = T::SimdStringSearch::new(); chk_cmp_sign(c, "string::SimdStringSearch::sse42_strcmp", &|a, b| sgn_ord(s.sse42_strcmp(a, b)), &d, p1, p2, true) });
+    }
+    // ---- X c X d : two identical halves of >= 64 KiB, then one differing byte
+    for idx in 0..ctx.n(4, 40) as u64 {
+        let xcxd = |c: &mut Case| -> (Vec<u8>, usize) { let xl = *c.rng.pick(&[65536usize, 65537, 131073, MIB + 1]); let kind = c.rng.below(6); let x = huge_shape_bytes(&mut c.rng, kind, xl); let cb = c.rng.next() as u8; let mut v = x.clone(); v.push(cb); v.extend_from_slice(&x); v.push(cb ^ 0x80);
+            c.input_str("huge", &format!("X c X d, |X|={xl} shape={kind}")); c.hash_more(&v[..64.min(v.len())]); c.nontrivial(); (v, xl) };
+        ctx.case("memops/compare", "huge_shape", idx, |c| { let (v, xl) = xcxd(c); let ops = SimdMemOps::new(); let (a, b) = (place(Place::Align(c.rng.usize_below(64)), &v[..xl + 1]), place(Place::Align(c.rng.usize_below(64)), &v[xl + 1..]));
+            let want = sgn_ord(v[..xl + 1].cmp(&v[xl + 1..])); let g = np("compare", || ops.compare(a.s(), b.s()))?; ensure!(sgn(g) == want && sgn(fast_compare(b.s(), a.s())) == -want, "compare_sign", "X c vs X d (|X|={xl}): got {g} want sign {want}"); c.ev(2); Ok(()) });
+        for (t, which) in [("iosearch/strstr.auto", 0), ("iosearch/strstr.sse42", 1), ("iosearch/strstr.scalar", 2), ("strsearch/strstr", 3)] {
+            ctx.case(t, "huge_shape", idx, |c| { let (v, xl) = xcxd(c); let s = S::SimdStringSearch::new(); let ts = T::SimdStringSearch::new();
+                let f = |h: &[u8], n: &[u8]| match which { 0 => s.find_pattern(h, n), 1 => S::sse42_strstr(h, n), 2 => S::scalar_strstr(h, n), _ => ts.sse42_strstr(h, n) };
+                let h = place(Place::Align(c.rng.usize_below(64)), &v);
+                // needle = X d : the candidate at 0 fails only at its last byte, the match starts at |X|+1
+                let nd = place(Place::Align(c.rng.usize_below(64)), &v[xl + 1..]); let want = if v[..xl + 1] == v[xl + 1..] { Some(0) } else { Some(xl + 1) };
+                let g = np("strstr(X d)", || f(h.s(), nd.s()))?; ensure!(g == want, "substring_search", "{t}: needle X d (len {}) in X c X d: got {g:?} want {want:?}", xl + 1); c.ev(1);
+                // short needle = last 9 bytes (occurs at the end; also inside the first half only if X c ends the same way)
+                let tail = &v[v.len() - 9..]; let want = naive_find(&v[..], tail); let g = np("strstr(tail)", || f(h.s(), tail))?; ensure!(g == want, "substring_search", "{t}: 9-byte tail needle: got {g:?} want {want:?}"); c.ev(1); Ok(()) });
+        }
+    }
+}
+
+fn crc32c_tab(data: &[u8], mut crc: u32) -> u32 { // exact: table derived from the bitwise definition
+    static T: std::sync::OnceLock<[u32; 256]> = std::sync::OnceLock::new();
+    let t = T.get_or_init(|| { let mut t = [0u32; 256]; for i in 0..256u32 { t[i as usize] = crc32c_def(&[i as u8], 0); } t });
+    for &b in data { crc = (crc >> 8) ^ t[((crc as u8) ^ b) as usize]; } crc
+}
+/// valid UTF-8 of about `n` bytes built from a repeated valid block (fast)
+fn huge_text(r: &mut Rng, n: usize, mb: u64) -> Vec<u8> { let blk = valid_exact(r, 4096, mb); let mut v = Vec::with_capacity(n + 4096); while v.len() + blk.len() <= n { v.extend_from_slice(&blk); } let rest = n - v.len(); v.extend(valid_exact(r, rest, 0)); v }
+const MSIZES: &[usize] = &[65535, 65536, 65537, MIB - 1, MIB, MIB + 1, 2 * MIB + 1, 3 * MIB + 5];
+fn g_huge_mib(ctx: &mut Ctx) {
+    use zipora::string::bmi2 as B;
+    let n = ctx.n(MSIZES.len(), MSIZES.len() * 5) as u64;
+    for idx in 0..n { let len = MSIZES[(idx as usize) % MSIZES.len()];
+        ctx.case("crc32c", "huge_mib", idx, |c| { use zipora::io::simd_validation::checksum as K; let kind = c.rng.below(6); let d = huge_shape_bytes(&mut c.rng, kind, len); let al = c.rng.usize_below(64); c.input_str("huge", &format!("len={len} shape={kind} align={al}")); c.hash_more(&d[..64]); c.nontrivial();
+            let m = Arena::from(&d); let _ = al; let a = ABuf::new(&d, al); let s = a.s(); let _ = m;
+            ensure!(crc32c_tab(&d[..1000], 7) == crc32c_def(&d[..1000], 7), "oracle_selfcheck", "table oracle != bitwise definition");
+            let want = !crc32c_tab(&d, 0xFFFF_FFFF); let h = np("crc32c_hash", || K::crc32c_hash(s))?.map_err(|e| bad("crc_err", e.to_string()))?; ensure!(h == want, "crc32c_oneshot", "crc32c_hash len={len} align {al}: {h:#010x} want {want:#010x}"); c.ev(1);
+            let init = c.rng.next() as u32; let w = crc32c_tab(&d, init);
+            for k in [1usize, 65535, 65536, 65537, len / 2, MIB - 1, MIB, MIB + 1, len - 1, len - 7] { if k > len { continue; } let x = K::crc32c_update(init, &s[..k]).map_err(|e| bad("crc_err", e.to_string()))?; let y = K::crc32c_update(x, &s[k..]).map_err(|e| bad("crc_err", e.to_string()))?; ensure!(y == w, "crc32c_incremental", "len={len} split {k}: {y:#010x} want {w:#010x}"); c.ev(1); }
+            // many small unaligned pieces
+            let mut x = init; let mut p = 0; while p < len { let k = (1 + c.rng.usize_below(70_000)).min(len - p); x = K::crc32c(&s[p..p + k], x).map_err(|e| bad("crc_err", e.to_string()))?; p += k; } ensure!(x == w, "crc32c_incremental", "len={len} random pieces"); c.ev(1); Ok(()) });
+        ctx.case("b64/io", "huge_mib", idx, |c| { use zipora::io::simd_encoding::base64 as IB; let len = len + (idx as usize / MSIZES.len()) % 3; let kind = c.rng.below(6); let d = huge_shape_bytes(&mut c.rng, kind, len); c.input_str("huge", &format!("len={len} shape={kind}")); c.hash_more(&d[..64]); c.nontrivial();
+            let want = b64_def(&d, false, true); let e = np("encode_base64", || IB::encode_base64(&d))?.map_err(|e| bad("b64_err", e.to_string()))?; if e != want { let i = first_diff(e.as_bytes(), want.as_bytes()); return Err(bad("b64_encode", format!("encode_base64 len={len}: first difference at output byte {i} (lengths {} / {})", e.len(), want.len()))); }
+            ensure!(IB::calculate_encoded_len(len) == want.len(), "b64_len", "calculate_encoded_len({len})");
+            let dec = np("decode_base64", || IB::decode_base64(&want))?.map_err(|e| bad("b64_decode_err", format!("canonical encoding of len {len} rejected: {e}")))?; ensure!(dec == d, "b64_roundtrip", "decode(encode(x)) != x, len={len}, first difference at {}", first_diff(&dec, &d));
+            let mut ob = vec![0u8; want.len()]; let n = IB::encode_base64_to_buffer(&d, &mut ob).map_err(|e| bad("b64_err", e.to_string()))?; ensure!(n == want.len() && ob == want.as_bytes(), "b64_encode", "encode_base64_to_buffer len={len}");
+            let mut db = vec![0u8; len]; let n = IB::decode_base64_from_buffer(want.as_bytes(), &mut db).map_err(|e| bad("b64_decode_err", e.to_string()))?; ensure!(n == len && db == d, "b64_roundtrip", "decode_base64_from_buffer len={len}");
+            let mut w = want.into_bytes(); let i = w.len() - 1 - c.rng.usize_below(70_000.min(w.len() - 1)); w[i] = b'!'; ensure!(IB::decode_base64(std::str::from_utf8(&w).unwrap()).is_err(), "b64_accepts_invalid", "invalid byte at {i} of {} accepted", w.len()); c.ev(5); Ok(()) });
+        ctx.case("b64/system", "huge_mib", idx, |c| { use zipora::system::base64 as SB; let len = len + 1 + (idx as usize / MSIZES.len()) % 3; let kind = c.rng.below(6); let d = huge_shape_bytes(&mut c.rng, kind, len); c.input_str("huge", &format!("len={len} shape={kind}")); c.hash_more(&d[..64]); c.nontrivial();
+            let (url, pad) = (idx % 2 == 1, idx % 4 < 2); let force = [None, Some(SB::SimdImplementation::AVX2), Some(SB::SimdImplementation::SSE42), Some(SB::SimdImplementation::AVX512), Some(SB::SimdImplementation::Scalar)][(idx % 5) as usize];
+            let codec = SB::AdaptiveBase64::with_config(SB::Base64Config { url_safe: url, padding: pad, force_implementation: force }); let want = b64_def(&d, url, pad);
+            let e = np("AdaptiveBase64::encode", || codec.encode(&d))?; if e != want { return Err(bad("b64_encode", format!("AdaptiveBase64(url={url},pad={pad},force={force:?}) len={len}: first difference at output byte {}", first_diff(e.as_bytes(), want.as_bytes())))); }
+            let dec = np("AdaptiveBase64::decode", || codec.decode(&want))?.map_err(|e| bad("b64_decode_err", format!("AdaptiveBase64(url={url},pad={pad},force={force:?}) rejects its own canonical encoding of len {len}: {e}")))?; ensure!(dec == d, "b64_roundtrip", "AdaptiveBase64(url={url},pad={pad}) len={len}");
+            if !url && pad { ensure!(SB::base64_encode_simd(&d) == want && SB::base64_decode_simd(&want).map_err(|e| bad("b64_decode_err", e.to_string()))? == d, "b64_roundtrip", "base64_*_simd len={len}"); }
+            c.ev(3); Ok(()) });
+        ctx.case("hex", "huge_mib", idx, |c| { use zipora::string as H; let kind = c.rng.below(6); let d = huge_shape_bytes(&mut c.rng, kind, len); c.input_str("huge", &format!("len={len} shape={kind}")); c.hash_more(&d[..64]); c.nontrivial();
+            const LO: &[u8; 16] = b"0123456789abcdef"; let mut lo = Vec::with_capacity(2 * len); for &b in &d { lo.push(LO[(b >> 4) as usize]); lo.push(LO[(b & 15) as usize]); }
+            let e = np("hex_encode", || H::hex_encode(&d))?; ensure!(e.as_bytes() == &lo[..], "hex_encode", "hex_encode len={len}: first difference at {}", first_diff(e.as_bytes(), &lo)); ensure!(H::hex_encode_upper(&d).to_ascii_lowercase().as_bytes() == &lo[..], "hex_encode", "hex_encode_upper len={len}");
+            let g = np("hex_decode_bytes", || H::hex_decode_bytes(&lo))?.map_err(|e| bad("hex_decode_err", e.to_string()))?; ensure!(g == d, "hex_roundtrip", "hex_decode_bytes len={len}");
+            let mut ob = vec![0u8; 2 * len]; ensure!(H::hex_encode_to_slice(&d, &mut ob).map_err(|e| bad("hex_err", e.to_string()))? == 2 * len && ob == lo, "hex_encode", "hex_encode_to_slice"); let mut db = vec![0u8; len]; ensure!(H::hex_decode_to_slice(&lo, &mut db).map_err(|e| bad("hex_decode_err", e.to_string()))? == len && db == d, "hex_roundtrip", "hex_decode_to_slice");
+            let mut w = lo.clone(); let i = w.len() - 1 - c.rng.usize_below(1000); w[i] = b'g'; ensure!(H::hex_decode_bytes(&w).is_err(), "hex_accepts_invalid", "invalid digit at {i} accepted"); c.ev(5); Ok(()) });
+        // ---- UTF-8 at multi-MiB: valid (ASCII / mixed), one multi-byte char or one defect far from the start
+        for t in ["utf8/validator", "bmi2/validate_utf8", "bmi2/count_chars", "unicode/validate_count", "bmi2/extract_chars", "bmi2/utf8_to_utf16"] {
+            ctx.case(t, "huge_mib", idx, |c| { let variant = (idx / MSIZES.len() as u64 + c.rng.below(6)) % 6; let mb = if variant == 1 { 40 } else { 0 };
+                let mut v = huge_text(&mut c.rng, len, mb); let n = v.len();
+                let desc = match variant {
+                    0 => "ascii".to_string(), 1 => "mixed".to_string(),
+                    2 => { let p = [65535usize, 65534, n - 3, n / 2][c.rng.usize_below(4)].min(n - 3); v[p..p + 3].copy_from_slice("\u{20AC}".as_bytes()); format!("3-byte char at {p}") }
+                    3 => { let p = [n - 1, 65536, 65535, MIB.min(n - 1), n - 2][c.rng.usize_below(5)].min(n - 1); let (nm, seq) = *c.rng.pick(BAD_SEQS); let e = (p + seq.len()).min(n); v[p..e].copy_from_slice(&seq[..e - p]); format!("{nm} at {p}") }
+                    4 => { v[n - 1] = 0xC3; "truncated 2-byte sequence at the end".to_string() }
+                    _ => { let dom = b'e'; for (i, b) in v.iter_mut().enumerate() { if i % 10 != 0 { *b = dom; } } "dominant symbol 90%".to_string() } };
+                let al = c.rng.usize_below(64); c.input_str("huge", &format!("len={n} {desc} align={al}")); c.hash_more(&v[n - 64..]); c.nontrivial();
+                let a = ABuf::new(&v, al); let s = a.s(); let std_ok = std::str::from_utf8(&v); let want_n = std_ok.as_ref().ok().map(|x| x.chars().count());
+                match t {
+                    "utf8/validator" => { use zipora::io::simd_validation::utf8 as U; let val = U::Utf8Validator::new_unmonitored(); for (nm, g) in [("Utf8Validator::validate_utf8", np("validate_utf8", || val.validate_utf8(s))?), ("utf8::validate_utf8", np("validate_utf8(global)", || U::validate_utf8(s))?)] { match g { Ok(x) if x == std_ok.is_ok() => {} other => return Err(bad("utf8_verdict", format!("{nm}: len={n} ({desc}): got {other:?}, std says valid={}", std_ok.is_ok()))) } c.ev(1); } }
+                    "bmi2/validate_utf8" => { let g = np("validate_utf8_bmi2", || B::Bmi2StringProcessor::new().validate_utf8_bmi2(s))?; ensure!(g == std_ok.is_ok(), "utf8_verdict", "validate_utf8_bmi2: len={n} ({desc}): got {g}"); c.ev(1); }
+                    "bmi2/count_chars" => { let g = np("count_utf8_chars_bmi2", || B::Bmi2StringProcessor::new().count_utf8_chars_bmi2(s))?; if g.as_ref().ok().copied() != want_n { return Err(bad("utf8_count", format!("count_utf8_chars_bmi2: len={n} ({desc}): got {g:?}, std says {want_n:?}"))); } c.ev(1); }
+                    "unicode/validate_count" => { let g = np("validate_utf8_and_count_chars", || zipora::string::validate_utf8_and_count_chars(s))?; if g.as_ref().ok().copied() != want_n { return Err(bad("utf8_count", format!("validate_utf8_and_count_chars: len={n} ({desc}): got {g:?}, std says {want_n:?}"))); } c.ev(1); }
+                    "bmi2/extract_chars" => { let g = np("extract_utf8_chars_bmi2", || B::Bmi2StringProcessor::new().extract_utf8_chars_bmi2(s))?; match (&g, &std_ok) { (Ok(x), Ok(st)) => { ensure!(x.len() == want_n.unwrap() && x.iter().zip(st.chars()).all(|(a, b)| *a == b as u32), "utf8_decode_mismatch", "extract_utf8_chars_bmi2: len={n} ({desc})"); } (Err(_), Err(_)) => {} (Err(e), Ok(_)) => return Err(bad("utf8_decode_rejects_valid", format!("extract_utf8_chars_bmi2: len={n} ({desc}) rejected: {e}"))), (Ok(x), Err(_)) => return Err(bad("utf8_decode_accepts_invalid", format!("extract_utf8_chars_bmi2: len={n} ({desc}) decoded to {} code points", x.len()))) } c.ev(1); }
+                    _ => { let g = np("utf8_to_utf16_bmi2", || B::Bmi2StringProcessor::new().utf8_to_utf16_bmi2(s))?; match (&g, &std_ok) { (Ok(x), Ok(st)) => { ensure!(x.iter().copied().eq(st.encode_utf16()), "utf8_decode_mismatch", "utf8_to_utf16_bmi2: len={n} ({desc})"); } (Err(_), Err(_)) => {} (Err(e), Ok(_)) => return Err(bad("utf8_decode_rejects_valid", format!("utf8_to_utf16_bmi2: len={n} ({desc}) rejected: {e}"))), (Ok(x), Err(_)) => return Err(bad("utf8_decode_accepts_invalid", format!("utf8_to_utf16_bmi2: len={n} ({desc}) transcoded to {} units", x.len()))) } c.ev(1); }
+                }
+                Ok(()) });
+        }
+        // ---- histogram with one symbol occurring > 65535 times; string ops on multi-MiB &str
+        ctx.case("bmi2/histogram", "huge_mib", idx, |c| { let variant = c.rng.below(4); let mut v = huge_text(&mut c.rng, len, if variant == 3 { 30 } else { 0 });
+            match variant { 0 => { let dom = b'a' + c.rng.below(26) as u8; let pct = 60 + c.rng.below(40); for b in v.iter_mut() { if c.rng.below(100) < pct { *b = dom; } } } 1 => { let x = v[0]; for b in v.iter_mut() { *b = x; } } _ => {} }
+            let s = String::from_utf8(v).map_err(|_| bad("gen", "generator produced invalid utf-8".into()))?; c.input_str("huge", &format!("len={} variant={variant}", s.len())); c.hash_more(&s.as_bytes()[..64]); c.nontrivial();
+            let a = np("analyze_compression_bmi2", || B::Bmi2StringProcessor::new().analyze_compression_bmi2(&s))?; let mut h = [0u32; 256]; for b in s.bytes() { h[b as usize] += 1; }
+            for x in 0..256usize { let g = a.char_frequencies.get(&(x as u8)).copied().unwrap_or(0); ensure!(g == h[x], "histogram", "analyze_compression_bmi2(len {}): count[{x:#04x}] = {g} want {}", s.len(), h[x]); }
+            ensure!(a.total_chars == s.len() && a.unique_chars == h.iter().filter(|&&x| x > 0).count(), "histogram", "totals for len {}", s.len()); c.note(&format!("max_count_gt_65535:{}", h.iter().any(|&x| x > 65535)), 1); c.ev(256); Ok(()) });
+        ctx.case("bmi2/runs", "huge_mib", idx, |c| { let mut s = String::with_capacity(len + 8); let mut want: Vec<(u8, usize, usize)> = vec![]; while s.len() < len { let ch = *c.rng.pick(b"abc\0 ~"); if want.last().map(|l| l.0) == Some(ch) { continue; } let k = (if c.rng.chance(1, 3) { 65536 + c.rng.usize_below(70_000) } else { 1 + c.rng.usize_below(3000) }).min(len - s.len()); want.push((ch, s.len(), k)); for _ in 0..k { s.push(ch as char); } }
+            c.input_str("huge", &format!("len={len} runs={}", want.len())); c.hash_more(&(want.len() as u64).to_le_bytes()); c.nontrivial();
+            let g = np("detect_runs_bmi2", || B::Bmi2StringProcessor::new().detect_runs_bmi2(&s))?; let got: Vec<(u8, usize, usize)> = g.iter().map(|r| (r.character, r.start, r.length)).collect(); ensure!(got == want, "runs", "detect_runs_bmi2(len {len}): {} runs want {} (longest {})", got.len(), want.len(), want.iter().map(|r| r.2).max().unwrap_or(0)); c.ev(1); Ok(()) });
+        ctx.case("bmi2/case", "huge_mib", idx, |c| { let s = String::from_utf8(huge_text(&mut c.rng, len, if idx % 2 == 0 { 0 } else { 20 })).unwrap(); c.input_str("huge", &format!("len={}", s.len())); c.hash_more(&s.as_bytes()[..64]); c.nontrivial(); let pr = B::Bmi2StringProcessor::new();
+            ensure!(np("to_lowercase_ascii_bmi2", || pr.to_lowercase_ascii_bmi2(&s))? == s.to_ascii_lowercase(), "ascii_case", "to_lowercase_ascii_bmi2(len {})", s.len()); ensure!(np("to_uppercase_ascii_bmi2", || pr.to_uppercase_ascii_bmi2(&s))? == s.to_ascii_uppercase(), "ascii_case", "to_uppercase_ascii_bmi2(len {})", s.len()); c.ev(2); Ok(()) });
+        ctx.case("bmi2/search", "huge_mib", idx, |c| { let mut v = huge_text(&mut c.rng, len, 0); for b in v.iter_mut() { if *b == b'#' { *b = b'.'; } } let n = v.len(); let nd = "ab#cd#ef"; let pos = [n - nd.len(), 65536, n / 2][(idx % 3) as usize].min(n - nd.len()); v[pos..pos + nd.len()].copy_from_slice(nd.as_bytes());
+            let s = String::from_utf8(v).unwrap(); c.input_str("huge", &format!("len={n} needle at {pos}")); c.hash_more(&s.as_bytes()[..64]); c.nontrivial(); let pr = B::Bmi2StringProcessor::new();
+            let g = np("search_bmi2", || pr.search_bmi2(&s, nd))?; ensure!(g == Some(pos), "substring_search", "search_bmi2(hay len {n}): got {g:?} want Some({pos})"); let g = pr.search_bmi2(&s, "ab#cd#eg"); ensure!(g.is_none(), "substring_search", "search_bmi2 absent needle: got {g:?}"); c.ev(2); Ok(()) });
+        ctx.case("hmstr/hash", "huge_mib", idx, |c| { let s = String::from_utf8(huge_text(&mut c.rng, len + (idx as usize * 3) % 40, 10)).unwrap(); c.input_str("huge", &format!("len={}", s.len())); c.hash_more(&s.as_bytes()[..64]); c.nontrivial(); let ops = zipora::hash_map::SimdStringOps::new();
+            let base = c.rng.next(); let g = np("fast_string_hash", || ops.fast_string_hash(&s, base))?; let w = hm_hash_def(s.as_bytes(), base); ensure!(g == w, "hash_tier_divergence", "fast_string_hash(len {}) on tier {:?} = {g:#018x}; scalar definition {w:#018x}", s.len(), ops.tier()); ensure!(ops.extract_prefix_simd(&s) == prefix_def(s.as_bytes()), "prefix", "extract_prefix_simd"); c.ev(2); Ok(()) });
+        ctx.case("hmstr/compare", "huge_mib", idx, |c| { let s = String::from_utf8(huge_text(&mut c.rng, len, 0)).unwrap(); let n = s.len(); c.input_str("huge", &format!("len={n}")); c.hash_more(&s.as_bytes()[..64]); c.nontrivial(); let ops = zipora::hash_map::SimdStringOps::new();
+            let t = s.clone(); ensure!(np("fast_string_compare", || ops.fast_string_compare(&s, &t, prefix_def(t.as_bytes())))? && ops.fast_string_compare(&s, &t, 0), "string_equality", "equal strings of len {n} reported different");
+            for p in [n - 1, n - 2, 65536, 65535, 0, n / 2, 9] { if p >= n { continue; } let mut b = s.clone().into_bytes(); b[p] = if b[p] == b'z' { b'y' } else { b'z' }; let o = String::from_utf8(b).unwrap(); for cp in [0u64, prefix_def(o.as_bytes())] { let g = ops.fast_string_compare(&s, &o, cp); ensure!(!g, "string_equality", "fast_string_compare: strings of len {n} differing at byte {p} reported equal (cached_prefix={cp:#x})"); c.ev(1); } }
+            Ok(()) });
+        ctx.case("strsearch/multi", "huge_mib", idx, |c| { use zipora::string::simd as T; let mut d = fast_bytes(&mut c.rng, len); for x in d.iter_mut() { *x &= 0x7F; } let sz = if idx % 2 == 0 { 5 } else { 20 }; let set: Vec<u8> = (0..sz).map(|i| 0x80 + 3 * i as u8).collect();
+            let mut want = vec![]; let dense = idx % 4 == 3; if dense { for i in (0..len).step_by(2) { d[i] = set[i % sz]; want.push(i); } } else { for p in [0usize, 15, 16, 65535, 65536, len / 2, len - 17, len - 1] { if p < len && !want.contains(&p) { d[p] = set[p % sz]; want.push(p); } } want.sort(); }
+            c.input_str("huge", &format!("len={len} set={sz} matches={}", want.len())); c.hash_more(&d[..64]); c.nontrivial();
+            let r = np("sse42_multi_search", || T::SimdStringSearch::new().sse42_multi_search(&d, &set))?; ensure!(r.positions == want, "charset_search_all", "sse42_multi_search(len {len}): {} positions want {}", r.positions.len(), want.len()); ensure!(r.characters.iter().zip(&want).all(|(ch, &p)| *ch == d[p]), "charset_search_chars", "characters"); c.ev(1); Ok(()) });
+    }
+    // ---- word arrays > 65536 / > 10^5 elements
+    for idx in 0..ctx.n(4, 24) as u64 {
+        ctx.case("bitops/default", "huge_words", idx, |c| { use zipora::entropy::bit_ops::*; let n = [65537usize, 100_001, 131_073, 262_145][(idx % 4) as usize]; let ws: Vec<u64> = (0..n).map(|i| if i % 1000 == 999 { word(&mut c.rng) } else { c.rng.next() }).collect(); c.input_str("huge", &format!("words={n}")); c.hash_more(&ws[0].to_le_bytes()); c.nontrivial();
+            let want: Vec<u32> = ws.iter().map(|x| x.count_ones()).collect(); ensure!(popc_def(ws[0]) == ws[0].count_ones(), "oracle_selfcheck", "popcount");
+            for (label, b) in [("default", BitOps::new()), ("forced_sw", BitOps::with_config(BitOpsConfig { enable_bmi2: false, enable_avx2: false, enable_popcnt: false, software_fallback: true, ..BitOpsConfig::default() }))] { let g = np("vectorized_popcount", || b.vectorized_popcount(&ws))?; if g != want { let i = g.iter().zip(&want).position(|(a, b)| a != b).unwrap_or(g.len().min(want.len())); return Err(bad("popcount_vec", format!("BitOps({label})::vectorized_popcount over {n} words: first difference at word {i} (lengths {} / {})", g.len(), want.len()))); } c.ev(1); }
+            Ok(()) });
+        ctx.case("bitops/dispatcher", "huge_words", idx, |c| { use zipora::entropy::bit_ops::*; let n = [65537usize, 100_001, 131_073, 262_145][(idx % 4) as usize]; let ws: Vec<u64> = (0..n).map(|_| c.rng.next() & c.rng.next()).collect(); c.input_str("huge", &format!("words={n}")); c.hash_more(&ws[0].to_le_bytes()); c.nontrivial();
+            let d = CompressionBmi2Dispatcher::new(); for (op, f) in [(CompressionOperation::PopCount, (|x: u64| x.count_ones() as u64) as fn(u64) -> u64), (CompressionOperation::LeadingZeros, |x: u64| x.leading_zeros() as u64), (CompressionOperation::TrailingZeros, |x: u64| x.trailing_zeros() as u64), (CompressionOperation::BitReverse, |x: u64| x.reverse_bits())] { let g = np("dispatch_bit_stream_process", || d.dispatch_bit_stream_process(&ws, op))?; ensure!(g.len() == n && g.iter().zip(&ws).all(|(a, &x)| *a == f(x)), "dispatcher_stream", "dispatch_bit_stream_process({op:?}) over {n} words"); c.ev(1); }
+            Ok(()) });
+        ctx.case("fastvec/fast_ops", "huge_mib", idx, |c| { use zipora::containers::FastVec; let n = [65537usize, 131_073, 2 * MIB + 1, MIB + 7][(idx % 4) as usize]; let d = fast_bytes(&mut c.rng, n); c.input_str("huge", &format!("len={n}")); c.hash_more(&d[..64]); c.nontrivial();
+            let mut fv: FastVec<u8> = FastVec::new(); np("copy_from_slice_fast", || fv.copy_from_slice_fast(&d))?.map_err(|e| bad("fastvec_err", e.to_string()))?; ensure!(fv.as_slice() == &d[..], "copy_mismatch", "FastVec::copy_from_slice_fast len={n}");
+            let ext = fast_bytes(&mut c.rng, 65537 + (idx as usize) * 13); np("extend_from_slice_fast", || fv.extend_from_slice_fast(&ext))?.map_err(|e| bad("fastvec_err", e.to_string()))?; let mut model = d.clone(); model.extend_from_slice(&ext); ensure!(fv.as_slice() == &model[..], "copy_mismatch", "FastVec::extend_from_slice_fast {n}+{}", ext.len());
+            let (a, b) = (c.rng.usize_below(70_000), model.len() - c.rng.usize_below(70)); np("fill_range_fast", || fv.fill_range_fast(a, b, 0xA7))?.map_err(|e| bad("fastvec_err", e.to_string()))?; for x in &mut model[a..b] { *x = 0xA7; } ensure!(fv.as_slice() == &model[..], "fill_mismatch", "FastVec::fill_range_fast({a},{b}) len={}", model.len());
+            let d32: Vec<u32> = (0..[65537usize, 100_001, 131_073, 262_145][(idx % 4) as usize]).map(|_| c.rng.next() as u32).collect(); let mut f32v: FastVec<u32> = FastVec::new(); f32v.copy_from_slice_fast(&d32).map_err(|e| bad("fastvec_err", e.to_string()))?; f32v.extend_from_slice_fast(&d32).map_err(|e| bad("fastvec_err", e.to_string()))?; let mut m32 = d32.clone(); m32.extend_from_slice(&d32); ensure!(f32v.as_slice() == &m32[..], "copy_mismatch", "FastVec<u32> copy/extend {} elements", d32.len());
+            f32v.fill_range_fast(65535, m32.len() - 1, 0xDEAD_BEEF).map_err(|e| bad("fastvec_err", e.to_string()))?; let l = m32.len(); for x in &mut m32[65535..l - 1] { *x = 0xDEAD_BEEF; } ensure!(f32v.as_slice() == &m32[..], "fill_mismatch", "FastVec<u32>::fill_range_fast over {} elements", l); c.ev(5); Ok(()) });
+        ctx.case("adaptive/select", "huge_sizes", idx, |c| { use zipora::simd::{AdaptiveSimdSelector, Operation, SimdImpl}; c.hash_more(&idx.to_le_bytes()); c.nontrivial(); let sel = AdaptiveSimdSelector::new(); let f = zipora::system::get_cpu_features();
+            for sh in [16u32, 17, 20, 21, 24, 31, 32, 33, 40, 62] { for d in [-1i64, 0, 1] { let size = ((1u64 << sh) as i64 + d) as usize; for dens in [None, Some(0.01), Some(0.99)] { let op = *c.rng.pick(&[Operation::Copy, Operation::MemZero, Operation::Search, Operation::Popcount, Operation::Utf8Validation]);
+                let a = np("select_optimal_impl", || sel.select_optimal_impl(op, size, dens))?; ensure!(a == sel.select_optimal_impl(op, size, dens), "selector_unstable", "select_optimal_impl({op:?},{size},{dens:?}) not stable");
+                let ok = match a { SimdImpl::Avx512 => f.has_avx512f && f.has_avx512bw && f.has_avx512vl, SimdImpl::Avx2 => f.has_avx2, SimdImpl::Bmi2 => f.has_bmi2, SimdImpl::Sse42 => f.has_sse42, SimdImpl::Neon => f.has_neon, SimdImpl::Sse2 | SimdImpl::Scalar => true }; ensure!(ok, "selector_unsupported_impl", "select_optimal_impl({op:?},{size},{dens:?}) = {a:?} not supported by the feature set"); c.ev(2); } } }
+            Ok(()) });
+    }
+    // ---- 2 MiB + k operands ending exactly at a PROT_NONE page (forked child)
+    for idx in 0..ctx.n(3, 24) as u64 {
+        let len = 2 * MIB + HK[(idx as usize * 4 + 1) % HK.len()];
+        ctx.case("memops/copy", "huge_guard", idx, |c| { huge_tag(c, &format!("len={len} at page end"), idx); let d = fast_bytes(&mut c.rng, len); forked(c, |c| { let ops = zipora::memory::simd_ops::SimdMemOps::new(); chk_copy(c, "SimdMemOps::copy_nonoverlapping", &|s, d| ops.copy_nonoverlapping(s, d), &d, Place::GuardEnd, Place::GuardEnd, true) }) });
+        ctx.case("iocopy/large", "huge_guard", idx, |c| { huge_tag(c, &format!("len={len} at page end"), idx); let d = fast_bytes(&mut c.rng, len); forked(c, |c| chk_copy(c, "copy_large_simd", &|s, d| zipora::io::simd_memory::copy::copy_large_simd(d, s), &d, Place::GuardEnd, Place::GuardEnd, true)) });
+        ctx.case("memops/find_byte", "huge_guard", idx, |c| { huge_tag(c, &format!("len={len} at page end"), idx); let r = c.rng.next() as u8; let mut d = fast_bytes(&mut c.rng, len); for x in d.iter_mut() { if *x == r { *x = r ^ 1; } } forked(c, |c| { let ops = zipora::memory::simd_ops::SimdMemOps::new(); let m = place(Place::GuardEnd, &d); let g = np("find_byte", || ops.find_byte(m.s(), r))?; ensure!(g.is_none(), "find_byte", "absent needle found at {g:?}"); let mut d2 = d.clone(); d2[len - 1] = r; let m = place(Place::GuardEnd, &d2); let g = np("find_byte", || ops.find_byte(m.s(), r))?; ensure!(g == Some(len - 1), "find_byte", "needle at last byte of {len}: got {g:?}"); c.ev(2); Ok(()) }) });
+        ctx.case("iosearch/strstr.sse42", "huge_guard", idx, |c| { huge_tag(c, &format!("len={len} at page end"), idx); c.tag("guard_needle_any"); let r = c.rng.next() as u8; let mut d = fast_bytes(&mut c.rng, len); for x in d.iter_mut() { if *x == r { *x = r ^ 1; } } let nd = vec![d[3], r, d[5]]; forked(c, |c| { let m = place(Place::GuardEnd, &d); let g = np("sse42_strstr", || zipora::io::simd_memory::search::sse42_strstr(m.s(), &nd))?; ensure!(g.is_none(), "substring_search", "absent needle found at {g:?}"); let mut d2 = d.clone(); d2[len - 3..].copy_from_slice(&nd); let m = place(Place::GuardEnd, &d2); let g = np("sse42_strstr", || zipora::io::simd_memory::search::sse42_strstr(m.s(), &nd))?; ensure!(g == Some(len - 3), "substring_search", "needle at the end of {len}: got {g:?}"); c.ev(2); Ok(()) }) });
+        ctx.case("crc32c", "huge_guard", idx, |c| { huge_tag(c, &format!("len={len} at page end"), idx); let d = fast_bytes(&mut c.rng, len); forked(c, |c| { let m = place(Place::GuardEnd, &d); let h = np("crc32c_hash", || zipora::io::simd_validation::checksum::crc32c_hash(m.s()))?.map_err(|e| bad("crc_err", e.to_string()))?; ensure!(h == !crc32c_tab(&d, 0xFFFF_FFFF), "crc32c_oneshot", "crc32c_hash len={len} at page end"); c.ev(1); Ok(()) }) });
+        ctx.case("utf8/validator", "huge_guard", idx, |c| { huge_tag(c, &format!("len={len} at page end"), idx); let mut v = huge_text(&mut c.rng, len, 0); if idx % 2 == 1 { let n = v.len(); v[n - 1] = 0xE2; } forked(c, |c| { let m = place(Place::GuardEnd, &v); let g = np("validate_utf8", || zipora::io::simd_validation::utf8::Utf8Validator::new_unmonitored().validate_utf8(m.s()))?; match g { Ok(x) if x == std::str::from_utf8(&v).is_ok() => {} other => return Err(bad("utf8_verdict", format!("len={len} at page end: got {other:?}"))) } c.ev(1); Ok(()) }) });
+    }
+}
+
 pub fn run(ctx: &mut Ctx) {
     g_memops(ctx);
     g_iocopy(ctx);
@@ -941,4 +1278,5 @@ pub fn run(ctx: &mut Ctx) {
     g_hmstr(ctx);
     g_bmi2x(ctx);
     g_adaptive(ctx);
+    if !cfg!(miri) { g_huge_bytes(ctx); g_huge_sizes(ctx); g_huge_mib(ctx); }
 }
